@@ -38,10 +38,11 @@ struct Args {
     scale: f64,
     evidence: bool,
     slots: Option<String>,
+    fast_fail: bool,
 }
 
 fn parse_flags(rest: &[String]) -> Args {
-    let mut a = Args { workers: std::thread::available_parallelism().map(|n| n.get()).unwrap_or(8).min(16), scale: 1.0, evidence: true, slots: None };
+    let mut a = Args { workers: std::thread::available_parallelism().map(|n| n.get()).unwrap_or(8).min(16), scale: 1.0, evidence: true, slots: None, fast_fail: false };
     let mut i = 0;
     while i < rest.len() {
         match rest[i].as_str() {
@@ -58,6 +59,10 @@ fn parse_flags(rest: &[String]) -> Args {
                 a.slots = rest.get(i).cloned();
             }
             "--no-evidence" => a.evidence = false,
+            "--fast-fail" => {
+                a.fast_fail = true;
+                a.evidence = false;
+            }
             _ => usage(),
         }
         i += 1;
@@ -93,7 +98,7 @@ fn main() {
             if tier != "quick" && tier != "thorough" {
                 usage();
             }
-            let opts = report::CheckOpts { tier, seed: seed_from_env(), workers: flags.workers, scale: flags.scale, slots_path: flags.slots, write_evidence: flags.evidence };
+            let opts = report::CheckOpts { tier, seed: seed_from_env(), workers: flags.workers, scale: flags.scale, slots_path: flags.slots, write_evidence: flags.evidence, fast_fail: flags.fast_fail };
             std::process::exit(report::run_check(&spec, &opts));
         }
         "replay" => {
